@@ -1,7 +1,7 @@
 (* Canonical text of what the correspondence observes after every operation.
    Separators are numbers >= 0x110000, which no Python str can contain.
    harness/impl_card.py computes the same text from the real Card. *)
-From Skv Require Export Ops Render.
+From Skv Require Export Ops Render Init.
 Open Scope N_scope.
 
 Definition U (n : N) : N := 1114112 + n.
@@ -88,9 +88,20 @@ Fixpoint show_run (ops : list op) (c : card) : pstr :=
   end.
 End Obs.
 
-(* one correspondence case: the operation sequence on an empty card, with this run's oracle table *)
-Definition show_case (mode : obs_mode) (cs : oracle_table * list op) : pstr :=
-  show_run (pretty_of (fst cs)) mode (snd cs) empty_card.
+(* one correspondence case: the card constructed from (template, model_diagram, get_params oracle, HTML oracle) -- step 0,
+   with the constructor's outcome and the state of the new card -- then the operation sequence, with this run's oracle
+   table.  When the constructor raises there is no card: nothing else is observed.  cfg = this run's Gen/CardSnapshot.cfg.
+   init_spec (TNone, DBool false, [], []) is Card(model, template=None, model_diagram=False): the empty card. *)
+Definition init_spec := (template * diagram * list (pstr * pstr) * pstr)%type.
+
+Definition show_case (cfg : config) (mode : obs_mode) (cs : oracle_table * init_spec * list op) : pstr :=
+  let '(tab, (t, dg, params, html), ops) := cs in
+  let (c0, r) := init_card cfg t dg params html in
+  U 7 :: show_outcome r
+  ++ match r with
+     | Failed _ => []
+     | _ => show_state (pretty_of tab) mode c0 ++ show_run (pretty_of tab) mode ops c0
+     end.
 
 (* Compact disagreement report (the observations are long): for every case whose text differs,
    [case index; index of the first differing step; length; the model's text of that step]. *)
